@@ -103,6 +103,12 @@ theorem trxcon_tx_overflow (tn fn pwr : Nat) (bits : List Nat) (h1 : 506 < bits.
 
 /-! ## C05: the TRXC commands trxcon emits -/
 
+/-- The regenerated `chan_types[]` table of `trx_if_cmd_setslot` maps `enum gsm_phys_chan_config`
+(NONE, CCCH, CCCH_SDCCH4, TCH_F, TCH_H, SDCCH8_SACCH8C, PDCH, TCH_F_PDCH, UNKNOWN, CCCH_SDCCH4_CBCH,
+SDCCH8_SACCH8C_CBCH, OSMO_DYN) to osmo-trx's `ChannelCombination` (FILL 0, I TCH/F, III TCH/H,
+IV CCCH, V CCCH+SDCCH4, VII SDCCH8, XIII PDCH; configurations trxcon does not drive: 0). -/
+theorem chan_types_osmo_trx : chanTypes = [0, 4, 5, 1, 3, 7, 13, 0, 0, 5, 7, 0] := by decide
+
 /-- **What trxcon emits.** For every PHYIF command the L1 side may issue (`ValidCmd`: ARFCNs that
 `gsm_arfcn2freq10` defines, a `gsm_phys_chan_config` inside `chan_types[]`, a mobile allocation
 whose text fits `ma_buf`), starting with an empty command queue, `trx_if_handle_phyif_cmd` returns 0,
